@@ -31,7 +31,7 @@ def deco(f):
 
 KINDS = ['assign', 'print', 'print2', 'expr', 'printexpr', 'none', 'multi', 'compound', 'def', 'semicolon']
 # the richer statement grammar of the C01 program generator (C01, C18, C19, C20)
-MORE_KINDS = ['augassign', 'for', 'while', 'with', 'try', 'decodef', 'class', 'literal_comment', 'triple', 'triple_unprefixed',
+MORE_KINDS = ['augassign', 'for', 'while', 'with', 'try', 'decodef', 'class', 'literal_comment', 'triple', 'triple_unprefixed', 'triple_blank',
               'import', 'comment', 'async_await', 'async_for', 'async_with']
 ALL_KINDS = KINDS + MORE_KINDS
 
@@ -104,6 +104,11 @@ class Stmt:
         elif kind == 'triple_unprefixed':
             self.lines = ["s%d = t(%d) and '''first" % (k, k), "  body %d" % k, "last'''"]
             self.unprefixed = [1, 2]
+        elif kind == 'triple_blank':
+            # a blank line that matters: inside a triple-quoted string (written with a bare continuation prompt)
+            self.lines = ["s%d = t(%d) and '''first" % (k, k), '', "  third %d'''" % k, "print(len(s%d.split(chr(10))))" % k]
+            self.starts = [0, 3]
+            self.out = '3\n'
         elif kind == 'import':
             self.lines = ['import json', 'j%d = json.dumps(t(%d))' % (k, k)]
             self.starts = [0, 1]
